@@ -122,6 +122,9 @@ func visitorMethods(ctx *Ctx) (map[*types.Func]*ast.FuncDecl, *packages.Package)
 	}
 	var pkg *packages.Package
 	for i := 0; i < vt.NumMethods(); i++ {
+		if !strings.HasPrefix(vt.Method(i).Name(), "Visit") {
+			continue
+		}
 		fd, p := ctx.DeclOf(vt.Method(i))
 		if fd != nil {
 			out[vt.Method(i)] = fd
